@@ -6,9 +6,10 @@
   `iter s now ko` is one loop iteration at clock value `now` (`tick s now = iter s now none`); with
   `ko = some k` the `k`-th child is reaped in the same iteration while periodic callbacks are pending
   (`Op.tickExit`).  `Inv` is the invariant of reachable states (`C12.reachable_inv`, `Inv_run`).
-  Helper lemmas: Echse/Lemmas/Daemon*.lean.
+  Helper lemmas: Echse/Lemmas/Daemon*.lean.  The last section (`jump`) is outside the assumption all the others make.
 -/
 import Echse.Lemmas.Daemon4
+import Echse.Lemmas.DaemonJump
 namespace C04
 open Echse.Daemon
 
@@ -186,5 +187,60 @@ example :
     (run { me := 0 } [.tick 25, .req 1001 [.sched "j" none 63 0 [10, 20] true], .tick 26]).2.1.length = 0 ∧
     (run { me := 0 } [.tick 25, .req 1001 [.sched "j" none 63 0 [10, 20] true], .tick 26]).1.tasks.length = 0 := by
   decide
+
+/-! ### a step of the wall clock (finding D158: known, not repaired) -/
+
+/-
+  Scope of this file.  `not_early`, `exactly_one`, `late_collapse`, `count`, `order`, `retire` … speak about
+  histories made of loads, loop iterations (`tick` / `tickExit`) and child exits (`Op`, `run`), i.e. they hold under
+  the assumption that libev asks a watcher's reschedule callback only when the watcher is started and after it has
+  fired (DESIGN.md Appendix B).  libev has a third occasion: when `time_update` sees the wall clock step away from the
+  monotonic clock, `periodics_reschedule` asks every started periodic again, with the new time and with NO callback to
+  follow.  The model has that as `reschedAll`, and `jump s now` is a loop iteration that begins with it.  `jump` is not
+  an `Op`: it is outside the assumption, `Inv` does not survive it, and the theorems above say nothing about histories
+  that contain it.  What is proved here instead is the defect as recorded (finding D158): `resched` drops the
+  occurrences that came due across the step without running anything, so they get zero runs instead of the one late
+  run of `exactly_one` / `late_collapse`; a one-shot task among them is left in the table with an exhausted stream, no
+  live child and no watcher that will ever fire (the state `retire` excludes for reachable states).
+-/
+
+/-- the state of the witness: root's daemon, user 1001 has loaded at clock 0 a repeating task `r` (5, 100) and a
+one-shot task `o` (5) -/
+def stepSt : St :=
+  (run { me := 0 } [.req 1001 [.sched "r" none 63 0 [5, 100] true, .sched "o" none 63 0 [5] true]]).1
+
+/-- `clock_step_loses_runs`: both tasks come due at 5 and the loop gets to run at 10.
+* Woken up late (`tick`), it runs each of them once; when `o`'s child has exited, `o` has left the table.
+* After a step of the wall clock to 10 (`jump`) it runs nothing; `r` waits for 100, `o` stays in the table with an
+  empty stream, no child and a watcher that never fires: three later iterations run `r` once and still have `o`. -/
+theorem clock_step_loses_runs :
+    (stepSt.tasks.map fun t => (t.uid, t.occ, t.cur)) = [("r", [5, 100], 5), ("o", [5], 5)] ∧
+    -- the late wake-up
+    ((tick stepSt 10).2.map fun sp => (sp.uid, sp.nd)) = [("r", false), ("o", false)] ∧
+    ((childExit (tick stepSt 10).1 1).1.tasks.map fun t => (t.uid, t.occ, t.cur)) = [("r", [100], 100)] ∧
+    -- the clock step
+    (jump stepSt 10).2.length = 0 ∧
+    ((jump stepSt 10).1.tasks.map fun t => (t.uid, t.occ, t.cur, t.nsim)) = [("r", [100], 100, 0), ("o", [], 0, 0)] ∧
+    ((jump stepSt 10).1.tasks.map fun t => (t.resched, t.cbUnsched, t.due)) =
+      [(true, false, some 100), (false, false, none)] ∧
+    ((run (jump stepSt 10).1 [.tick 50, .tick 1000, .tick 100000]).2.1.map fun p => (p.1, p.2.uid)) = [(1000, "r")] ∧
+    ((run (jump stepSt 10).1 [.tick 50, .tick 1000, .tick 100000]).1.find "o").isSome = true := by decide
+
+/-- the general form of the loss: in a well-formed state an iteration that begins with a clock step makes no spawn
+at all, whatever is due and whatever the new clock value is (`exactly_one` promises one per due task for `tick`) -/
+theorem clock_step_no_spawn {s : St} (h : Inv s) (now : Nat) : (jump s now).2 = [] :=
+  jump_no_spawn now h.sidU fun t ht ha hr => by
+    cases hc : t.cbUnsched with
+    | true => exact Or.inl rfl
+    | false => exact Or.inr ((h.tinv' ht).drain ha hr hc)
+
+/-- … and the state it leaves is no longer well-formed (the one-shot task of the witness contradicts `retire`) -/
+theorem clock_step_breaks_inv : Inv stepSt ∧ ¬ Inv (jump stepSt 10).1 := by
+  refine ⟨reachable_inv 0 _ ⟨fun i hi => ?_, trivial⟩, fun h => ?_⟩
+  · simp only [List.mem_cons, List.not_mem_nil, or_false] at hi
+    rcases hi with rfl | rfl <;> simp [instrSorted]
+  · have : ∀ t ∈ (jump stepSt 10).1.tasks, t.occ = [] → t.nsim = 0 → t.cbUnsched = true :=
+      fun t ht ho hn => (retire h ht ho hn).2.1
+    exact absurd this (by decide)
 
 end C04
